@@ -87,6 +87,10 @@ func runC01proc(c *runCtx) {
 				ch <- res{id, st, rp.Body}
 			}(id)
 		}
+		// a creation issued under the same fault
+		newId := fmt.Sprintf("c01.%d.new", round)
+		crp := srv.JSON("POST", "/promises", nil, map[string]any{"id": newId, "timeout": far})
+		createAcked := crp.Err == nil && crp.Status == 201
 		for range ids {
 			x := <-ch
 			c.rep.Events++
@@ -103,6 +107,12 @@ func runC01proc(c *runCtx) {
 		c.rep.FaultPoints++
 		c.rep.Evaluations++
 		c.rep.Nontriv(vh.Hash("c01proc", round))
+		if createAcked {
+			c.rep.Hit("c01proc.creation-acknowledged-under-commit-fault")
+			if v, st := read(newId); v == nil {
+				c.violate("procfault:acknowledged-creation-not-stored", fmt.Sprintf("round %d: the creation of %s was acknowledged 201 while the store could not commit; a read afterwards answers %d", round, newId, st), nil)
+			}
+		}
 		// what later requests see
 		first := map[string]string{}
 		for _, id := range ids {
